@@ -265,7 +265,7 @@ func extraC05(col *Collector, r *RNG, tier string) {
 			return false, "the handler was called after Stream had returned", "handler-after-return"
 		case len(res.leaked) > 0:
 			return false, "goroutines started by the library remain after Stream returned: " + strings.Join(res.leaked, " | "),
-				fmt.Sprintf("goroutine-leak:dump-requested=%v:frames=[%s]", len(res.dumps) > 0, strings.Join(res.leaked, ","))
+				fmt.Sprintf("goroutine-leak:dump-requested=%v:handshake-completed=%v:frames=[%s]", len(res.dumps) > 0, len(res.queries) > 0, strings.Join(res.leaked, ","))
 		case expectConn && res.connected && !res.peerClosed:
 			return false, "the master never saw its socket closed", "socket-left-open"
 		}
@@ -528,7 +528,11 @@ var customDump func(sc *simConn, req dumpReq) []action
 func aliasHistory(r *RNG, cfg string, blobLen int) *hist {
 	h := &hist{cfg: cfg, ext: map[string][]string{}}
 	t := &hTable{id: 9, db: "db", name: "t"}
-	kinds := []colKind{{15, 300}, {252, 4}, {16, 3<<8 | 4}, {254, stringMd(254, 30)}, {7, 0}, {17, 0}, {17, 3}, {255, 2}, {3, 0}, {246, 10<<8 | 2}}
+	// string-like columns (sub-slices of the event buffer), zero timestamps, and one column of every formatted
+	// type holding the same "zero" value in every row: a decoder that hands out a shared constant for such a value
+	// shows up as two delivered values overlapping / as a scribble changing a later delivery
+	kinds := []colKind{{15, 300}, {252, 4}, {16, 3<<8 | 4}, {254, stringMd(254, 30)}, {7, 0}, {17, 0}, {17, 3}, {255, 2}, {3, 0}, {246, 10<<8 | 2},
+		{13, 0}, {10, 0}, {11, 0}, {12, 0}, {19, 0}, {18, 0}, {1, 0}, {8, 0}, {246, 5 << 8}, {254, 247<<8 | 1}, {254, 248<<8 | 2}, {4, 4}, {5, 8}}
 	for i, k := range kinds {
 		t.cols = append(t.cols, hCol{typ: k.typ, md: k.md, nullable: true, name: fmt.Sprintf("c%d", i)})
 	}
@@ -544,6 +548,34 @@ func aliasHistory(r *RNG, cfg string, blobLen int) *hist {
 				vs = append(vs, "ts:0")
 			case c.typ == 17 && c.md == 0:
 				vs = append(vs, "ts2:0:0")
+			case c.typ == 13:
+				vs = append(vs, "y:0")
+			case c.typ == 10:
+				vs = append(vs, "d:0:0:0")
+			case c.typ == 11:
+				vs = append(vs, "t:0:0:0:0")
+			case c.typ == 12:
+				vs = append(vs, "dt:0:0:0:0:0:0")
+			case c.typ == 19:
+				vs = append(vs, "t2:0:0:0:0:0")
+			case c.typ == 18:
+				vs = append(vs, "dt2:0:0:0:0:0:0:0")
+			case c.typ == 1:
+				vs = append(vs, "i:1:0")
+			case c.typ == 8:
+				vs = append(vs, "i:8:0")
+			case c.typ == 246 && c.md == 5<<8:
+				vs = append(vs, "dec:0:00000:")
+			case c.typ == 254 && c.md == 247<<8|1:
+				vs = append(vs, "en:1:0")
+			case c.typ == 254 && c.md == 248<<8|2:
+				vs = append(vs, "set:2:0")
+			case c.typ == 4:
+				h.ext["f32"] = append(h.ext["f32"], strings.TrimPrefix(f32ext(0), "f32="))
+				vs = append(vs, "f32:0")
+			case c.typ == 5:
+				h.ext["f64"] = append(h.ext["f64"], strings.TrimPrefix(f64ext(0), "f64="))
+				vs = append(vs, "f64:0")
 			default:
 				vs = append(vs, fixInt(randValue(r, colKind{c.typ, c.md}, h.ext), c))
 			}
